@@ -27,7 +27,7 @@ MName(i) == "m" \o ToString(i)
 C06Asyncs == {"no", "native", "async_trait"}
 C06Sels == {"Self", "ref", "Borrow"}
 \* "byvalue-method": the trait ALSO has a `self`-by-value method; "typed-receiver": a method written `self: &Self`;
-\* "lifetime-trait": the trait has a lifetime parameter; "default-param": a defaulted type parameter
+\* "lifetime-trait": the trait has two lifetime parameters related by a where-predicate (`where 't: 'u`); "default-param": a defaulted type parameter
 C06Extras == {"none", "generic-trait", "generic-method", "supertrait", "where", "borrowed-return", "byvalue-method", "typed-receiver",
               "lifetime-trait", "default-param"}
 C06WellFormed(p) ==
